@@ -256,9 +256,10 @@ def main():
     print("property=%s tier=%s states=%d transitions=%d evaluations=%d nontrivial=%d violations=%d known=%d sanitizer_reports=%d exhaustive=%s wall=%.1fs" %
           (pid, tier, cov_out["states"], cov_out["transitions"], cov_out["evaluations"], cov_out["distinct_nontrivial"], len(new_viol), len(known_hit), len(san_reports), cov_out["exhaustive"], wall))
     if engine_error: sys.exit(2)
+    if new_viol: sys.exit(1)         # e.g. every shard died inside the library on its first case: that is a verdict, not a vacuous run
     if cov_out["states"] < 1 or cov_out["evaluations"] < 1:
         if not args.match: print("ENGINE-ERROR: vacuous run (no states explored)"); sys.exit(2)
-    sys.exit(1 if new_viol else 0)
+    sys.exit(0)
 
 if __name__ == "__main__":
     main()
